@@ -208,7 +208,11 @@ def write_evidence(rep, spec, exit_violations):
           'coverage': cov,
           'assumptions': spec.get('assumptions', []),
           'wall_s': round(wall, 2), 'violations': exit_violations}
-    path = os.path.join(core.VERIF_DIR, 'evidence', f'{rep.prop}.json')
+    evdir = os.path.join(core.VERIF_DIR, 'evidence')
+    if os.path.realpath(core.REPO) != '/repo':
+        # sensitivity runs against a scratch copy never overwrite the evidence of the real tree
+        evdir = os.environ.get('VERIF_EVIDENCE_DIR') or os.path.join(core.REPO, '.verif-evidence')
+    path = os.path.join(evdir, f'{rep.prop}.json')
     os.makedirs(os.path.dirname(path), exist_ok=True)
     tmp = path + '.tmp'
     with open(tmp, 'w', encoding='utf-8') as f:
